@@ -47,6 +47,7 @@ type report struct {
 	GoStmts       []string `json:"go_stmts"`
 	ChanOps       []string `json:"chan_ops"` // select / range over channel: not owned by the simulator
 	ChanRewritten int      `json:"chan_rewritten"`
+	GoRewritten   int      `json:"go_rewritten"`
 	ReflectMaps   []string `json:"reflect_map_iter"`
 	Shimmed       []string `json:"shimmed_imports"`
 	Unshimmed     []string `json:"unshimmed_imports"` // nondeterminism sources with no seam
@@ -336,7 +337,41 @@ func main() {
 					stmtList(n.Body, false)
 					rep.ChanOps = append(rep.ChanOps, fmt.Sprintf("%s:%d select", relFile, line(n.Pos())))
 				case *ast.GoStmt:
-					rep.GoStmts = append(rep.GoStmts, fmt.Sprintf("%s:%d", relFile, line(n.Pos())))
+					// go f(a, b)  ->  simrt.Go2(f, a, b): the new goroutine becomes a
+					// simulated task; arguments are still evaluated at the go statement
+					call := n.Call
+					nargs := len(call.Args)
+					ok := nargs <= 4 && !call.Ellipsis.IsValid()
+					if ok {
+						if tv, found := info.Types[call.Fun]; found {
+							if sig, isSig := tv.Type.Underlying().(*types.Signature); isSig {
+								if sig.Results().Len() > 0 || sig.Variadic() {
+									ok = false
+								}
+							} else {
+								ok = false // conversion or builtin
+							}
+						} else {
+							ok = false
+						}
+					}
+					if !ok {
+						rep.GoStmts = append(rep.GoStmts, fmt.Sprintf("%s:%d", relFile, line(n.Pos())))
+						break
+					}
+					rep.GoRewritten++
+					name := "simrt.Go("
+					if nargs > 0 {
+						name = "simrt.Go" + strconv.Itoa(nargs) + "("
+					}
+					sp = append(sp, splice{off: off(n.Go), end: off(n.Go) + 2, text: name})
+					// drop the blank after "go" is not needed: "simrt.Go( f" is fine
+					if nargs == 0 {
+						sp = append(sp, splice{off: off(call.Lparen), end: off(call.Rparen), text: ""})
+					} else {
+						sp = append(sp, splice{off: off(call.Lparen), end: off(call.Lparen) + 1, text: ", "})
+					}
+					used = true
 				case *ast.SendStmt:
 					if inSelect[n] {
 						break
